@@ -4,19 +4,23 @@ use crate::dewey::{dewey_cmp, DeweyOp, DeweyVersion};
 use crate::Pattern;
 
 fn menu() -> Pattern {
-    let p = match sym::choose("pat", 5) {
+    let p = match sym::choose("pat", 6) {
         0 => "pk>=1<3",
         1 => "pk-[0-9]*",
         2 => "{pk,qk}-[0-9a]*",
         3 => "pk-1",
+        4 => "pk-?-[0-9]*",
         _ => "?k-*",
     };
     Pattern::new(p).unwrap()
 }
 
-fn any_name(tag: &str, vlen: usize) -> String {
+/// BASE-VERSION with base pk / qk, optionally extended by a further `-a` / `-b` component (so that
+/// the first and the last '-' differ), and a symbolic version
+fn any_name(tag: &str, vlen: usize, with_mid: bool) -> String {
     let base = if sym::choose(tag, 2) == 0 { "pk" } else { "qk" };
-    format!("{}-{}", base, sym::any_str(tag, "set:0129.anb_", 0, vlen))
+    let mid = if !with_mid || sym::choose(tag, 2) == 0 { String::new() } else { format!("-{}", sym::any_str(tag, "set:ab", 1, 1)) };
+    format!("{}{}-{}", base, mid, sym::any_str(tag, "set:0129.anb_", 0, vlen))
 }
 
 fn version_of(n: &str) -> DeweyVersion {
@@ -48,9 +52,9 @@ fn same(a: Option<&str>, b: Option<&str>) -> bool {
 
 pub fn h_pair() {
     let p = menu();
-    let l = sym::bound(2, 3);
-    let a = any_name("a", l);
-    let b = any_name("b", l);
+    let l = sym::bound(1, 2);
+    let a = any_name("a", l, true);
+    let b = any_name("b", l, true);
     let (ma, mb) = (p.matches(&a), p.matches(&b));
     let r = p.best_match(&a, &b);
     sym::observe_bool("ma", ma);
@@ -103,9 +107,9 @@ fn bm<'a>(p: &Pattern, x: Option<&'a str>, y: Option<&'a str>) -> Option<&'a str
 pub fn h_triple() {
     let p = menu();
     let l = sym::bound(1, 2);
-    let a = any_name("a", l);
-    let b = any_name("b", l);
-    let c = any_name("c", l);
+    let a = any_name("a", l, false);
+    let b = any_name("b", l, false);
+    let c = any_name("c", l, false);
     let (sa, sb, sc) = (Some(a.as_str()), Some(b.as_str()), Some(c.as_str()));
     let w = bm(&p, bm(&p, sa, sb), sc);
     sym::cover("winner", w.is_some());
